@@ -9,49 +9,49 @@ HERE = os.path.dirname(os.path.dirname(os.path.abspath(__file__)))
 
 # id: (category, technique, level text, level note, design ref)
 T = {
- "C01": ("fault_enumeration", "generated forged/mutated datagram injection into a virtual-time world; snapshot-equality + delivery-ledger oracle; exhaustive bit flips / truncations of sampled genuine datagrams",
+ "C01": ("fault_enumeration", "generated forged/mutated datagram injection into a virtual-time world; snapshot-equality + delivery-ledger oracle; exhaustive bit flips / truncations of sampled genuine datagrams; complete fresh client hellos (datagram number 1) against established endpoints",
          "Every hostile datagram class of the property is generated (Hypothesis) and, for sampled genuine datagrams, every single-bit flip and truncation is enumerated, against real endpoints in drawn states; the oracle is state-snapshot equality plus an application delivery ledger.",
          "Trusts OpenSSL AES-GCM; state coverage is sampled (drawn histories), fault coverage per sampled datagram is complete.", "3/C01"),
- "C02": ("exploration", "generated active-attacker edits of the three handshake datagrams (byte-level and structured substitutions, hostile challenges incl. congruent / foreign tokens, schedules), late hellos against established sessions, aftermath of refused hellos; independent 'genuinely signed payload' + proof-of-key oracle; exhaustive bit flips of the server hello",
+ "C02": ("exploration", "generated active-attacker edits of the three handshake datagrams (byte-level and structured substitutions, hostile challenges incl. congruent / foreign tokens, schedules, edited hellos arriving 0.4-2.3 s late), late hellos against established sessions, aftermath of refused hellos; independent 'genuinely signed payload' + proof-of-key oracle; exhaustive bit flips of the server hello",
          "Generated search over key pairs, byte/structured mutations and schedules of the handshake against real client and server endpoints.",
          "ECDSA/ECDH/HKDF primitives trusted; signatures are randomised inside OpenSSL (oracle keyed on payload).", "3/C02"),
- "C03": ("exploration", "generated send histories across 16-bit wraps (positioned and genuine 70k-215k datagram sessions), microsecond-polling applications, sends before / after the session; wire-tap oracle (nonce set, independent AES-GCM open with 20-byte AAD, cleartext scan, clear datagrams = one hello each)",
+ "C03": ("exploration", "generated send histories across 16-bit wraps (positioned and genuine 70k-215k datagram sessions), microsecond-polling applications, sends before / after the session, handshakes that never complete while the application already sends; wire-tap oracle (nonce set, independent AES-GCM open with 20-byte AAD, cleartext scan, clear datagrams = one hello each)",
          "Generated histories incl. sequence wrap, keep-alives, retransmissions; every emitted datagram is checked by an independent parser/decryptor.",
          "Non-decreasing clock and the 1/60 s send cap (the property's preconditions); quick tier positions seq counters near the wrap (white-box write, declared).", "3/C03"),
- "C04": ("exploration", "generated duplication/reordering/replay schedules in a virtual-time world (incl. replay of a recorded session into the next session of the same client object); delivery-ledger (at most once) and snapshot-diff (only dropped+1) oracles",
+ "C04": ("exploration", "generated duplication/reordering/replay schedules in a virtual-time world (incl. replay of a recorded session into the next session of the same client object, client socket send faults); delivery-ledger (at most once) and snapshot-diff (only dropped+1) oracles",
          "Generated network schedules and attacker replays at drawn lags against the real endpoints; at-most-once decided by a harness-side ledger.",
          "Lag between original and copy < 32767 datagrams (property precondition).", "3/C04"),
- "C05": ("exploration", "generated payload sizes (exhaustive boundary sets x MTU x API) under generated loss/dup/reorder then heal; bounded-liveness delivery ledger",
+ "C05": ("exploration", "generated payload sizes (exhaustive boundary sets x MTU x API) under generated loss/dup/reorder/client socket send faults (also across the 16-bit wrap) then heal; bounded-liveness delivery ledger",
          "Bounded liveness in virtual time: adversarial phase then healed network until quiescence or a generous cap; lengths around every boundary are enumerated.",
          "Liveness is decided with a stated cap; expiry of the cap while the sender still works is reported inconclusive.", "3/C05"),
  "C06": ("exploration", "exhaustive MTU x boundary-length table through real sender/receiver pair with generated arrival orders; byte-identity multiset oracle; adversarial content",
          "Finite boundary table enumerated; arrival orders/duplications/interleavings generated; oracle is multiset inclusion and byte identity against what was sent.",
          "Order exploration is at message level within the 256-message window.", "3/C06"),
- "C07": ("exploration", "generated delay/loss/dup schedules with callbacks on every send; ledger + wire-tap oracle for truthfulness and exactly-once; resolution invariant after every step",
+ "C07": ("exploration", "generated delay/loss/dup schedules (also across the 16-bit wrap, with client socket send faults) with callbacks on every send; ledger + wire-tap oracle for truthfulness and exactly-once; resolution invariant after every step",
          "Generated schedules incl. round trips longer than the resend interval and forged/stale acks; callbacks are checked against the peer's delivery ledger and the emission times seen on the wire.",
          "BEST_EFFORT callbacks may legitimately fire several times (documented); only truthfulness is demanded for them.", "3/C07"),
- "C08": ("exploration", "enumerated SeqNum value x offset table vs integer ring model; exhaustive DFS + Hypothesis insertion histories of BitField vs reference window model; emitted ack fields vs accepted-set model",
+ "C08": ("exploration", "enumerated SeqNum value x offset table vs integer ring model; exhaustive DFS + Hypothesis insertion histories of BitField vs reference window model; emitted ack fields vs accepted-set model (from the handshake on, connect callbacks that raise); received ack fields vs integer-line model of the named datagrams, enumerated around the wrap",
          "The ring table and the short-history window space are enumerated completely (thorough); longer histories and all widths 8..256 are generated; every header built by a real connection is compared with a model of accepted datagrams.",
          "Offsets < half the ring (property precondition); reference models are trusted.", "3/C08"),
  "C09": ("exploration", "generated packets (full header ranges, 0..255 messages, both forms) round-tripped through the codec; generated send() sequences for every MTU with wire-tap size/packing/no-loss oracle",
          "Codec round trip over generated field combinations; packing decided on the wire for drawn MTUs and send bursts.",
          "Conservative reading of 'fit together' (the code's documented accounting).", "3/C09"),
- "C10": ("exploration", "generated multi-client operation histories (Hypothesis lists: overlapping connects, reconnects, bursts, handler exceptions, kicks from handler events, shutdown, drawable token collisions) interpreted against the real server loop in lock-step; lifecycle automaton + accepted=>handled oracle",
+ "C10": ("exploration", "generated multi-client operation histories (Hypothesis lists: overlapping connects, reconnects, bursts, handler exceptions in every event incl. starting, kicks from handler events, shutdown, drawable token collisions) interpreted against the real server loop in lock-step; lifecycle automaton + accepted=>handled oracle",
          "Generated histories against the real UdpServerThread loop with a recording handler; a per-client-object automaton decides connect-once / messages / disconnect-once; silence is judged on the harness's own record of when a client process stopped.",
          "The receive thread and loop thread are serialised (lock-step); races between them are not explored.", "3/C10"),
  "C11": ("exploration", "generated hostile datagram streams (random, structured, bulk hellos, spoofed) through the datagram entry point interleaved with honest echo traffic, plus an enumeration of the smallest usable MTUs; liveness/service/byte-count/block-list oracle",
          "Generated attack streams against the real entry point and loop; oracle observes thread liveness, honest echo latency, per-address byte counters and pool snapshots.",
          "CPU/memory cost of handshakes is invisible in virtual time and not claimed.", "3/C11"),
- "C12": ("exploration", "generated configurations / client and server setter orders / late interval changes / idle durations / cut instants (with stale copies arriving afterwards) in virtual time; emission-gap and timeout-window oracle computed from the wire tap",
+ "C12": ("exploration", "generated configurations / client and server setter orders / late interval changes / idle durations / cut instants / connect callbacks that raise (with stale copies arriving afterwards) in virtual time; emission-gap and timeout-window oracle computed from the wire tap",
          "Generated configurations with the property's precondition built in; hours of virtual idle time; oracle = gap windows on the wire tap and status-change instants.",
          "Client frame spacing <= server emission spacing (model soundness, see DESIGN 3/C05 S).", "3/C12"),
- "C13": ("exploration", "Hypothesis recursive value generation incl. width boundaries and user classes (flat and derived); type-strict normaliser round-trip + exact-consumption + concatenation oracle over every encode/decode entry point (dumpb/loadb, stream, gzip, persistent); out-of-domain refusal",
+ "C13": ("exploration", "Hypothesis recursive value generation incl. width boundaries and user classes (flat and derived); type-strict normaliser round-trip + exact-consumption + concatenation oracle over every encode/decode entry point (dumpb/loadb, stream, gzip, persistent); out-of-domain refusal followed by in-domain round trips in the same process",
          "Generated values over the whole supported grammar; oracle is an independent type-strict normaliser and stream-position accounting.",
          "Dict keys / set members drawn from hashable scalars that survive the tuple->list rule.", "3/C13"),
  "C14": ("exploration", "Hypothesis mutation of valid encodings + crafted length/type fields + coverage-guided Atheris fuzzing; in-target oracle: ordinary exception or well-typed value, line-event, allocation and stream-read-volume budgets linear in input size",
          "Mutational and coverage-guided search over byte strings with a deterministic work counter and allocation peak as the bound oracle.",
          "Budgets are calibrated on valid encodings with a 10x margin.", "3/C14"),
- "C15": ("exploration", "Hypothesis generation of objects over every documented annotated shape; fromJson(toJson) / loads(dumps) identity + json.dumps acceptance",
+ "C15": ("exploration", "Hypothesis generation of objects over every documented annotated shape (incl. a class with non-empty container defaults); fromJson(toJson) / loads(dumps) identity + json.dumps acceptance",
          "Generated field values over all annotated shapes the documentation lists.",
          "Field values have their annotated types (property precondition).", "3/C15"),
  "C16": ("exploration", "exhaustive pattern x path enumeration against a reference matcher written from the documented grammar; Hypothesis route tables (every registration order, growing tables, websocket routes, resource classes) with first-match / 404 oracle; differential between Router.dispatch and raw HTTP/1.1 requests through the protocol stack",
@@ -60,11 +60,11 @@ T = {
  "C17": ("exploration", "exhaustive adversarial segment-alphabet enumeration + Hypothesis unicode + router-captured names; containment-under-root oracle",
          "Finite adversarial name table enumerated completely for several roots, plus generated unicode and router-produced names.",
          "POSIX path semantics of the host.", "3/C17"),
- "C18": ("exploration", "every payload length x opcode x mask (and FIN/RSV bit combination) against a reference RFC 6455 codec; all single/double cut positions of fixed frame streams and Hypothesis-drawn streams (bursts, interleaved connections, closes) through the real protocol handler",
+ "C18": ("exploration", "every payload length x opcode x mask (and FIN/RSV bit combination, bytes and bytearray payloads, a frame written twice) against a reference RFC 6455 codec; all single/double cut positions of fixed frame streams and Hypothesis-drawn streams (bursts, interleaved connections, closes) through the real protocol handler",
          "Length table enumerated (thorough: 0..70000), chunkings enumerated for short streams and generated for long ones; oracle is an independent RFC 6455 encoder/decoder.",
          "The handler is driven with a fake transport/request as RequestFactory does.", "3/C18"),
- "C19": ("exploration", "Hypothesis passwords and compound corruptions of hash strings; independent hashlib.scrypt recomputation oracle; salt freshness under re-seeded RNG state and across forked workers",
-         "Generated passwords and structured corruptions; True is accepted only when an independent scrypt recomputation of the corrupted string's own fields agrees.",
+ "C19": ("exploration", "Hypothesis passwords and compound corruptions of hash strings; independent strict parser (four fields, alphabet-only padded base64) + hashlib.scrypt recomputation oracle; salt freshness under re-seeded RNG state and across forked workers",
+         "Generated passwords and structured corruptions; True is accepted only when the string is itself a well-formed hash (strict independent parser) whose own fields agree with an independent scrypt recomputation.",
          "scrypt cost bounds the case count (~0.1 s per KDF).", "3/C19"),
  "C20": ("exploration", "Hypothesis rule-based state machine over register/unregister/dispatch on both dispatchers; name->handler reference model",
          "Generated operation sequences with a reference model; invariant checked after every step.",
